@@ -19,7 +19,7 @@ import (
 type Pipe struct {
 	Kind  string // leaf-fromto leaf-elems leaf-count leaf-rec map filter chain take nest
 	A, B  *Pipe
-	Lo    int   // leaf-fromto
+	Lo    int // leaf-fromto
 	Hi    int
 	Elems []int // leaf-elems
 	N     int   // leaf-count, leaf-rec, take
@@ -177,7 +177,7 @@ func RandPipe(r *core.Rng, depth int, id *int) *Pipe {
 }
 
 func call(fn string, args ...ast.Node) ast.Node { return ast.Call{Fn: fn, Args: args} }
-func name(n string) ast.Node                  { return ast.Name{N: n} }
+func name(n string) ast.Node                    { return ast.Name{N: n} }
 func ilit(v int) ast.Node {
 	if v < 0 {
 		return ast.Unary{Op: "-", X: ast.IntLit{V: int64(-v)}}
